@@ -186,6 +186,35 @@ def oracle(case, rec):
                  "get_StateChangeMatrix()", "C01/get_StateChangeMatrix", case)
             _cmp(_sym_eval(a_sym, m, pt, "get_EventRateVector()", "C01/get_EventRateVector", case).reshape(n_e), ref["rates"],
                  "get_EventRateVector()", "C01/get_EventRateVector", case)
+    # the caller edits the symbolic reports it was handed (substitutes a state by 0 to look at a sub-system, say): the next
+    # report must again be the model's, not the edited object
+    if case.get("backend", "lambda") == "lambda":
+        pt = case["points"][-1]
+        try:
+            first = model.get_ode_eqn()
+            for i_ in range(n_s):
+                first[i_, 0] = first[i_, 0] * 0 + 17
+            if n_e:
+                v_first = model.get_StateChangeMatrix()
+                v_first[0, 0] = 99
+                a_first = model.get_EventRateVector()
+                a_first[0, 0] = 0
+            again = model.get_ode_eqn()
+        except Exception as e:
+            raise PropertyViolation("C01/symbolic-again/" + type(e).__name__, "second symbolic report raised %r" % (e,), case)
+        ref = ir.reference_float(m, pt["x"], pt["t"], pt["theta"], order)
+        tf = float(np.abs(ref["pure"]).max()) if n_s else 0.0
+        if n_e:
+            tf += float(np.abs(ref["V"]).dot(np.abs(ref["rates"])).max())
+        _cmp(_sym_eval(again, m, pt, "get_ode_eqn()", "C01/get_ode_eqn-after-edit", case).reshape(n_s), ref["f"],
+             "get_ode_eqn() after the caller edited the previous report in place", "C01/get_ode_eqn-after-edit", case, terms=tf)
+        if n_e:
+            _cmp(_sym_eval(model.get_StateChangeMatrix(), m, pt, "get_StateChangeMatrix()", "C01/get_StateChangeMatrix-after-edit", case),
+                 ref["V"], "get_StateChangeMatrix() after an in-place edit of the previous report", "C01/get_StateChangeMatrix-after-edit", case)
+            _cmp(_sym_eval(model.get_EventRateVector(), m, pt, "get_EventRateVector()", "C01/get_EventRateVector-after-edit", case).reshape(n_e),
+                 ref["rates"], "get_EventRateVector() after an in-place edit of the previous report", "C01/get_EventRateVector-after-edit", case)
+            got_f2 = _arr(model.ode(pt["x"], pt["t"]), (n_s,), "ode(x,t)", "C01/ode-after-edit", case)
+            _cmp(got_f2, ref["f"], "ode(x,t) after the symbolic reports were edited in place", "C01/ode-after-edit", case, terms=tf)
     # reactant matrix: which states an event touches
     if n_e:
         if np.asarray(react).shape != (n_s, n_e) or (np.asarray(react) != ref["reactant"]).any():
